@@ -25,19 +25,38 @@ type ClientCfg struct {
 	StaleP   float64 `json:"staleP"`   // probability to replace from a stale held checkpoint
 	CreateP  float64 `json:"createP"`  // probability of a create once something is held
 	FirstOps string  `json:"firstOps"` // "" | "fetch" : start by fetching (missing-log probe)
+	HTTP     bool    `json:"http"`     // the backend reaches its store over HTTP (DynamoDB, S3)
 }
 
 type opener func() (ctlog.LockBackend, func(), error)
 
 var smallPool = [][]byte{{}, {0}, []byte("a"), {'a', 0}, {'a', 0, 'b'}, {0, 'a'}, {0xff, 0}, []byte("b")}
 
-func classifyErr(err error) string {
+// classifyErr sorts a fetch error that is not ErrLogNotFound: "error" is a
+// definite answer (the store was reached and the backend turned its answer
+// into this error), "transient" says nothing about the stored state (lock
+// contention, a transport failure, a 5xx answer).
+func classifyErr(err error, http bool) string {
 	s := err.Error()
-	if strings.Contains(s, "SQLITE_BUSY") || strings.Contains(s, "SQLITE_LOCKED") ||
-		strings.Contains(s, "database is locked") || errors.Is(err, context.DeadlineExceeded) {
+	if strings.Contains(s, "SQLITE_BUSY") || strings.Contains(s, "SQLITE_LOCKED") || strings.Contains(s, "SQLITE_PROTOCOL") ||
+		strings.Contains(s, "SQLITE_INTERRUPT") || strings.Contains(s, "database is locked") ||
+		errors.Is(err, context.DeadlineExceeded) {
+		return "transient"
+	}
+	if http && !strings.Contains(s, "StatusCode: 4") {
 		return "transient"
 	}
 	return "error"
+}
+
+// classifyWriteErr: a write that reported an error had no effect ("fail")
+// when the error is a definite refusal; over HTTP anything but a 4xx answer
+// (no answer at all, a 5xx) leaves the outcome unknown.
+func classifyWriteErr(err error, http bool) string {
+	if http && !strings.Contains(err.Error(), "StatusCode: 4") {
+		return "unknown"
+	}
+	return "fail"
 }
 
 type client struct {
@@ -53,6 +72,7 @@ type client struct {
 	prev  []byte
 
 	createFailed bool
+	usedEmpty    bool
 }
 
 func (c *client) value() (v []byte, isNil bool) {
@@ -63,10 +83,14 @@ func (c *client) value() (v []byte, isNil bool) {
 		}
 		return append([]byte{}, smallPool[r.IntN(len(smallPool))]...), false
 	}
-	if r.IntN(40) == 0 {
-		return nil, true
-	}
-	if r.IntN(30) == 0 {
+	// unique mode: no two attempted writes of a history carry the same value
+	// (checkpoints are never signed twice); the empty value (or nil, which
+	// is the same register value) is used at most once, by client 1
+	if c.cfg.Index == 1 && !c.usedEmpty && r.IntN(4) == 0 {
+		c.usedEmpty = true
+		if r.IntN(3) == 0 {
+			return nil, true
+		}
 		return []byte{}, false
 	}
 	base := []byte(fmt.Sprintf("%s-c%d-%d", c.cfg.Tag, c.cfg.Index, c.k))
@@ -123,13 +147,12 @@ func (c *client) do(op string, old ctlog.LockedCheckpoint, new []byte, newNil bo
 	func() {
 		defer func() {
 			if p := recover(); p != nil {
-				// no information about the outcome of a fetch; a write that
-				// panicked reports a failure (it must then have had no effect)
+				// a panic says nothing about the stored state or the effect
 				ret.Err = fmt.Sprintf("panic: %v", p)
 				if op == "fetch" {
 					ret.Res = "transient"
 				} else {
-					ret.Res = "fail"
+					ret.Res = "unknown"
 				}
 			}
 		}()
@@ -145,11 +168,11 @@ func (c *client) do(op string, old ctlog.LockedCheckpoint, new []byte, newNil bo
 			case errors.Is(err, ctlog.ErrLogNotFound):
 				ret.Res, ret.Err = "notfound", err.Error()
 			default:
-				ret.Res, ret.Err = classifyErr(err), err.Error()
+				ret.Res, ret.Err = classifyErr(err, c.cfg.HTTP), err.Error()
 			}
 		case "create":
 			if err := c.be.Create(ctx, c.logID, new); err != nil {
-				ret.Res, ret.Err = "fail", err.Error()
+				ret.Res, ret.Err = classifyWriteErr(err, c.cfg.HTTP), err.Error()
 				c.createFailed = true
 			} else {
 				ret.Res = "ok"
@@ -158,7 +181,7 @@ func (c *client) do(op string, old ctlog.LockedCheckpoint, new []byte, newNil bo
 			cp, err := c.be.Replace(ctx, old, new)
 			switch {
 			case err != nil:
-				ret.Res, ret.Err = "fail", err.Error()
+				ret.Res, ret.Err = classifyWriteErr(err, c.cfg.HTTP), err.Error()
 			case cp == nil:
 				ret.Res, ret.Err = "ok", "nil checkpoint returned"
 			default:
